@@ -50,6 +50,28 @@ func propC09(t *rapid.T) {
 	cfg := irsem.GenCfg{MaxDepth: rapid.IntRange(1, ev.Scale(5, 7)).Draw(t, "depth"), GadgetProb: 25}
 	cfg.ConstOnly = rapid.IntRange(0, 9).Draw(t, "constOnly") < 3
 	e := irsem.GenExpr(t, cfg)
+	if rapid.IntRange(0, 5).Draw(t, "sharedConst") == 0 {
+		// two constants of one tree sharing a backing array: a wide constant and
+		// the narrowed view WithWidth gives of it (the lifter narrows immediates
+		// this way); the narrow one is an operand of a wider all-constant
+		// operation that is folded before the wide one is used
+		cw := []int{2, 4, 8, 16}[rapid.IntRange(0, 3).Draw(t, "sharedW")]
+		bs := make([]byte, cw)
+		for i := range bs {
+			bs[i] = byte(rapid.IntRange(1, 255).Draw(t, "sharedByte"))
+		}
+		wide := expr.NewConst(bs, expr.Width(cw))
+		narrow := wide.WithWidth(expr.Width(rapid.IntRange(1, cw-1).Draw(t, "sharedN")))
+		k := expr.NewConst([]byte{byte(rapid.IntRange(0, 255).Draw(t, "sharedK"))}, 1)
+		w := expr.Width(cw)
+		op := binOpsAll[rapid.IntRange(0, len(binOpsAll)-1).Draw(t, "sharedOp")]
+		var inner expr.Expr = expr.NewBinary(op, narrow, k, w)
+		if rapid.Bool().Draw(t, "sharedLess") {
+			inner = expr.NewLess(narrow, k, narrow, k, w)
+		}
+		e = expr.NewBinary(expr.Add, expr.NewBinary(expr.Add, inner, wide, w), e, w)
+		col.Class("shared-backing-constants")
+	}
 	before := irsem.String(e)
 
 	var f expr.Expr
@@ -148,7 +170,8 @@ func TestC09(t *testing.T) {
 		"memory loads (address sub-expressions), constants, widths 1..255 with deliberately mismatched parent/child "+
 		"widths and randomly inserted width gadgets and gadget look-alikes; 30% constant-only trees; each tree is folded "+
 		"and compared with the original under 3 hash-defined valuations by an independent math/big evaluator; a third of the folded trees is "+
-		"embedded (shared between two positions) in a bigger tree which is folded and compared again. "+
+		"embedded (shared between two positions) in a bigger tree which is folded and compared again; one tree in six "+
+		"also contains a wide constant and its WithWidth-narrowed view (shared backing array) in an all-constant operation. "+
 		"non-trivial = folding changed the tree and the tree contains a load (value comparison is not vacuous); "+
 		"distinct by structural rendering of the tree")
 	col := colC09
